@@ -358,11 +358,21 @@ def run_unit(unit, tier="quick", seeds=None):
         if not prim:
             continue
         sp = prim[0]
+        macro_name = None
+        # a failure inside a macro (assert!/debug_assert!/unreachable!) is reported at the macro's definition:
+        # follow the expansion chain back to the call site in the generated file
+        hops = 0
+        while os.path.basename(sp["file_name"]) != os.path.basename(gen) and sp.get("expansion") and hops < 8:
+            macro_name = macro_name or sp["expansion"].get("macro_decl_name")
+            sp = sp["expansion"]["span"]
+            hops += 1
         if os.path.basename(sp["file_name"]) != os.path.basename(gen):
             gl = None
         else:
             gl = sp["line_start"]
         kind = classify(d["message"])
+        if macro_name and kind == "precondition":
+            kind = "assert"
         it = item_at(meta, gl) if gl else None
         origin = meta["linemap"][gl - 1] if gl and gl - 1 < len(meta["linemap"]) else None
         detail = ""
